@@ -6,6 +6,7 @@ import Qryn.Proofs.TraceQLGrammar
 import Qryn.Proofs.TraceQLAll
 import Qryn.Proofs.TraceQLAllFull
 import Qryn.TraceQL.ComplexHeap
+import Qryn.Proofs.ComplexHeapClosed
 import Qryn.Gen.TraceQLOps
 /-! # C11 — the SQL generated for TraceQL selects exactly the traces the query describes
 
@@ -22,7 +23,9 @@ traces with their selected spans), `portions_partition` (the portion loop, any `
 `{}` alone (`AttrlessConditionPlanner`: the span table is scanned, no index): `plan_all_traces` (the whole statement, proved),
 `plan_all_traces_explicit`. Extension c11y: `duration_literal_exact` / `agg_duration_literal` / `duration_condition_literal`
 (every unit conversion against the exact value of the literal), `planComplex_heap_closed_upto` (the pointer algorithm of
-`planComplex` builds the tree the theorems are about), `tags_query_ignored_superset`. -/
+`planComplex` builds the tree the theorems are about), `tags_query_ignored_superset`. Extension c11p:
+`planComplex_heap_closed_full` is a THEOREM (every script, induction over the selector chain with the loop invariant
+`planComplex_heap_invariant`), corollaries `planComplex_heap_tree`, `planComplex_heap_fails_iff`, `planComplex_heap_means_script`. -/
 namespace Qryn.C11
 open Qryn Qryn.Sql Qryn.TraceQL
 
@@ -507,10 +510,70 @@ theorem planComplex_heap_closed_upto :
     ∀ ops ∈ ComplexHeap.opSeqs 6, ComplexHeap.planShape (ComplexHeap.scriptOf ops) = ComplexHeap.closedShape (ComplexHeap.scriptOf ops) := by
   decide +kernel
 
-/-- the same for every script: compiled, **not proved** (the proof needs a frame argument over the heap; the bounded statement above is
-    kernel-checked, the `heap` stream compares the real objects) -/
-def planComplex_heap_closed_full : Prop :=
-  ∀ script : Script, ComplexHeap.planShape script = ComplexHeap.closedShape script
+/-- **The same for EVERY script** (any number of selectors, any selectors, a missing operator, a dangling one): the tree read off the
+    heap after `planComplex` as written IS the closed form `planTree`, prefixes included, and the walk fails (nil dereference) exactly
+    where the closed form fails. Proved by induction over the selector chain (`Proofs/ComplexHeapClosed.lean`). The loop invariant:
+    after the selectors seen so far the heap holds a tree with ONE hole — a chain of *frames* from `root` down to `current`, each a
+    complex node that has its finished first operand and waits for the second: at most one `||` frame on top (its operand is
+    everything planned before the last `||`), then the `&&` frames of the group being read (`ComplexHeap.HReads`). `&&` hangs a new
+    frame into the hole, `||` plugs the selector's planner into the hole — which finishes the whole tree — and makes that tree the
+    first operand of a fresh single `||` frame (`root.setOps`), no operator plugs the leaf and stops (`ComplexHeap.specH`,
+    `specH_closed`: that loop is `groupsS` / `andNest` / `orFold`). Frame rules: allocation does not touch a finished tree, and a
+    finished tree holds no node with a single operand, so `current.addOp` cannot change it (`Reads.append`, `Reads.modify`). -/
+theorem planComplex_heap_closed_full :
+    ∀ script : Script, ComplexHeap.planShape script = ComplexHeap.closedShape script :=
+  ComplexHeap.planShape_eq_closedShape
+
+/-- the loop invariant itself: from ANY state of the walk that satisfies it (`Inv`: the frames hang below `root`, `current` is the
+    innermost one and has one operand) the pointer algorithm fails exactly when the heap-free loop `specH` fails and otherwise leaves
+    the tree `specH` computes below `root`, small enough for `readTree`'s fuel -/
+theorem planComplex_heap_invariant (script : Script) (st : ComplexHeap.St) (cur : Option Nat) (frames : List ComplexHeap.Frame)
+    (h : ComplexHeap.Inv st cur frames) :
+    match ComplexHeap.specH st.k frames script with
+    | some t => ∃ st', ComplexHeap.planComplexH st cur script = .ok st' ∧ ∃ r, st'.root = some r ∧
+        ComplexHeap.Reads st'.nodes r t ∧ ComplexHeap.tsize t ≤ st'.nodes.length
+    | none => ∃ e, ComplexHeap.planComplexH st cur script = .error e :=
+  ComplexHeap.heap_spec script st cur frames h
+
+/-- read as "what `root.planner()` walks": the pointer algorithm leaves the tree `t` iff `planTree` returns `t` -/
+theorem planComplex_heap_tree (script : Script) (t : XTree) :
+    ComplexHeap.planShape script = some t ↔ planTree script = .ok t := by
+  rw [planComplex_heap_closed_full, ComplexHeap.closedShape]
+  cases planTree script with
+  | ok t' => simp
+  | error e => simp
+
+/-- … and it fails (Go: nil pointer dereference, an operator without a following selector) iff the closed form does -/
+theorem planComplex_heap_fails_iff (script : Script) :
+    ComplexHeap.planShape script = none ↔ ∃ e, planTree script = .error e := by
+  rw [planComplex_heap_closed_full, ComplexHeap.closedShape]
+  cases planTree script with
+  | ok t' => simp
+  | error e => simp
+
+/-- **precedence, on the planner objects as `planComplex` leaves them**: for EVERY script the tree of `&&` / `||` nodes the pointer
+    algorithm builds means the script with `&&` binding tighter than `||` (composition with `tree_means_script`) -/
+theorem planComplex_heap_means_script (f : Selector → Bool) (script : Script) (t : XTree)
+    (h : ComplexHeap.planShape script = some t) : treeHolds f t = scriptHolds f script := by
+  rw [planComplex_heap_tree] at h
+  simp only [planTree, bind, Except.bind] at h
+  cases hg : groupsS script with
+  | error e => rw [hg] at h; cases h
+  | ok gs =>
+    rw [hg] at h
+    simp only [pure, Except.pure, Except.ok.injEq] at h
+    subst h
+    exact tree_means_script f script gs hg
+
+/-- non-vacuity beyond the old bound: a mixed chain of nine selectors (and one whose last operator dangles) -/
+example : ComplexHeap.shapeText (ComplexHeap.planShape (ComplexHeap.scriptOf [.and, .or, .and, .and, .or, .or, .and, .and, .none])) =
+    "(O12 (O10 (O4 (A1 S9:2 S8:3) (A5 S7:6 (A7 S6:8 S5:9))) S4:11) (A13 S3:14 (A15 S2:16 S1:17)))" := by decide +kernel
+example : ComplexHeap.planShape (ComplexHeap.scriptOf [.and, .or, .and, .and, .or, .or, .and, .and]) = none ∧
+    (∃ e, planTree (ComplexHeap.scriptOf [.and, .or, .and, .and, .or, .or, .and, .and]) = .error e) := by
+  refine ⟨by decide +kernel, ?_⟩
+  exact (planComplex_heap_fails_iff _).1 (by decide +kernel)
+/-- the initial state of `p.planComplex(root, root, p.script)` satisfies the invariant -/
+example : ComplexHeap.Inv ⟨[], none, 0⟩ none [] := ⟨Nat.le_refl _, rfl, rfl⟩
 
 /-- a mixed chain of four selectors, end to end on the model: `{a} && {b} || {c} && {d}` is planned as `(a && b) || (c && d)` -/
 example : ComplexHeap.shapeText (ComplexHeap.planShape (ComplexHeap.scriptOf [.and, .or, .and, .none])) =
